@@ -451,7 +451,13 @@ def check_total_reads(ctx, pk, readers):
         binders = [n for n in ast.walk(fi.node) if isinstance(n, (ast.For, ast.comprehension))]
         if not binders:
             continue
-        names = sorted({x.id for b in binders for x in ast.walk(b.target) if isinstance(x, ast.Name)})
+        names = {x.id for b in binders for x in ast.walk(b.target) if isinstance(x, ast.Name)}
+        # plain aliases of those variables made inside the reader (name = entry_name)
+        for _ in range(2):
+            for a_ in ast.walk(fi.node):
+                if isinstance(a_, ast.Assign) and len(a_.targets) == 1 and isinstance(a_.targets[0], ast.Name) and isinstance(a_.value, ast.Name) and a_.value.id in names:
+                    names.add(a_.targets[0].id)
+        names = sorted(names)
         for lp in [fi.node]:
             sites = read_sites(lp, names)
             ctx.unit('read_sites', len(sites))
